@@ -18,8 +18,9 @@ The machine is generic in the *store* (`Store D B`: data container `D`, batch ty
 multi-output wrappers append rows (`moStore`), the model list routes every observation to the list
 of its objective (`mlStore`, mirroring `add_sample`'s `int` / `List[int]` `dim_index` branches).
 
-The two train-and-freeze helpers are the op sequences `helperOps` (what the code does: the last
-`update()` is skipped when `initial_sample_cnt = 0`) and `helperOpsFixed` (update unconditionally).
+The two train-and-freeze helpers perform the op sequence `helperOps` (update unconditionally after
+the clear); `helperOpsConditional` is the sequence of the code before the fix `be888aa` (the last
+`update()` skipped when `initial_sample_cnt = 0`).
 
 ## 2. Exact posterior over `Rat`
 
@@ -109,19 +110,22 @@ def mlStore (σ : Type) (m : Nat) : Store (List (List σ)) (Route × List σ) :=
 
 /-- op sequence of `get_gpytorch_model(list)_w_known_hyperparams`: add the training set (one
 `add_sample` for the multi-output wrappers, one per objective for the model list), update,
-(train,) clear; then add the initial samples and update **only if** `initial_sample_cnt > 0`. -/
+(train,) clear; add the initial samples if `initial_sample_cnt > 0`; then `update()`
+unconditionally (since the fix `be888aa` in /repo). -/
 def helperOps (train : List B) (initial : Option B) : List (Op B) :=
-  train.map .add ++ [.update, .clear] ++
-    (match initial with
-     | some b => [.add b, .update]
-     | none => [])
-
-/-- the repaired helper: `update()` after `clear_data()` unconditionally -/
-def helperOpsFixed (train : List B) (initial : Option B) : List (Op B) :=
   train.map .add ++ [.update, .clear] ++
     (match initial with
      | some b => [.add b]
      | none => []) ++ [.update]
+
+/-- the helpers' op sequence *before* that fix: the last `update()` sat inside
+`if initial_sample_cnt > 0:` — kept because the check `helper-stale-after-clear` and the theorem
+`helperOpsConditional_upToDate_iff_ends_with_update` are about exactly this regression. -/
+def helperOpsConditional (train : List B) (initial : Option B) : List (Op B) :=
+  train.map .add ++ [.update, .clear] ++
+    (match initial with
+     | some b => [.add b, .update]
+     | none => [])
 
 /-! ## 2. exact linear algebra over `Rat` -/
 
